@@ -32,46 +32,73 @@ def total(ctx, report, facts, config, rule="C20.TOTAL"):
                   site=b.loc(bad[0][0]) if bad else b.loc(), config=config)
 
 
+def _has_leaf(t, leaf):
+    from ..terms import subterms
+    return any(s_ == leaf for s_ in subterms(t))
+
+
 def walk(ctx, report, facts, config, rule="C20.WALK"):
+    """write_par_seq visits every stage, every group of it and every id of the group, prints one line per id under the
+    name the id has in the map it was given, and stops early only when the formatter reports an error."""
+    from .. import semq as Q
+    from ..semcov import _term_class
     prog = ctx.program(facts)
     b = facts.one(A.SB + "::write_par_seq")
     report.touched(b, config)
-    bt = prog.bt(b)
-    trs = [t for t in traversals(prog, b, allow_try=True) if t.kind == "for"]
+    ev, ends = Q.sem(ctx, facts, b)
+    loops = Q.all_loops(ends)
     lvl = []
-    cur = None
-    # level 1: self.ids
-    for t in trs:
-        if root(t.source, bt, facts.crate) == (SELF, ["ids"]):
-            lvl.append(t)
-            cur = t
+    l1 = [L for L in loops if L.source is not None and Q.strip(ev, L.source) == ("field", ("param", 1), "ids", A.SB)]
+    cur = l1[0] if len(set(L.id for L in l1)) == 1 else None
     while cur is not None and len(lvl) < 3:
-        nxt = [t for t in trs if root(t.source, bt, facts.crate) == (("elem", cur.header), [])]
-        if len(nxt) != 1:
-            break
-        lvl.append(nxt[0])
-        cur = nxt[0]
+        lvl.append(cur)
+        nxt = [L for L in loops if L.source is not None and Q.strip(ev, L.source) == cur.elem]
+        cur = nxt[0] if len(set(L.id for L in nxt)) == 1 else None
     ok = len(lvl) == 3
     report.ob(rule, "levels", ok, "three nested traversals rooted at self.ids (stages, groups, members)" if ok else
               "expected three nested traversals of the id table, found %d" % len(lvl), site=b.loc(), config=config)
-    for i, t in enumerate(lvl):
-        report.ob(rule, "level%d-full" % (i + 1), t.full, "full-forward, leaves only through `?`" if t.full else "level %d of the id table is not fully traversed: %s" % (i + 1, t.why),
-                  site=b.loc(t.header), config=config)
+
+    def error_exit(it):
+        """The way leaves because the last thing decided was that a write failed."""
+        cs = [c for c in it.path.conds if c[0][0] == "discr"]
+        if not cs:
+            return False
+        last = cs[-1]
+        c = Q.callee_of(ev, last[0][1])
+        return c is not None and c.name in ("write_fmt", "write_str", "write_char") and it.path.variant(last[0][1]) == "Err"
+
+    for i, L in enumerate(lvl):
+        why = []
+        same = [x for x in loops if x.id == L.id]
+        for x in same:
+            if x.kind == "while" or x.stages or _term_class(ev, x.source) != "full":
+                why.append("not a plain front-to-back traversal")
+            for it in x.iters:
+                if it.end in ("break", "return") and not error_exit(it):
+                    why.append("it can stop early without a formatter error")
+        report.ob(rule, "level%d-full" % (i + 1), not why, "full-forward, leaves only when the formatter fails" if not why else
+                  "level %d of the id table is not fully traversed: %s" % (i + 1, "; ".join(sorted(set(why)))), site=Q.site_of(ev, L) or b.loc(), config=config)
     if ok:
         inner = lvl[2]
-        writes = [bb for bb, t in b.normal_calls() if Callee(t["func"]).name == "write_fmt" and bb in inner.loop]
-        cnt = bt.cfg.count(lambda x: x in writes, start=inner.some_bb, ends=[inner.header], within=set(inner.loop)) if writes else (0, 0)
-        report.ob(rule, "one-line-per-id", cnt == (1, 1), "write_fmt calls per member: min %s / max %s (expected exactly 1)" % cnt, site=b.loc(inner.header), config=config)
-        # the printed name is looked up by the member's id in a map built from the `map` parameter
-        gets = [bb for bb, t in b.normal_calls() if Callee(t["func"]).name == "get" and bb in inner.loop and "HashMap" in Callee(t["func"]).path]
-        okn = False
-        if len(gets) == 1:
-            a = bt.call_args(gets[0])
-            key_root = root(a[1], bt, facts.crate)
-            m = a[0]
-            leaves = prog.origins(b, m)
-            okn = key_root == (("elem", inner.header), []) and (("param", b.key, 3) in leaves or ("field", A.DB, "map") in leaves)
-        report.ob(rule, "name-lookup", okn, "each id is looked up in the map inverted from the `map` argument" if okn else "the printed name is not looked up by the member's own id in the name map", site=b.loc(), config=config)
+        cnts = set()
+        okn = True
+        n_ways = 0
+        for x in [x for x in loops if x.id == inner.id]:
+            for it in x.iters:
+                if it.end == "done":
+                    continue
+                n_ways += 1
+                ws = [c for c in it.path.events if c[0] == "call" and c[2].name == "write_fmt"]
+                cnts.add(len(ws))
+                gets = [c for c in it.path.events if c[0] == "call" and c[2].name == "get" and "HashMap" in c[2].path]
+                if not (len(gets) == 1 and Q.strip(ev, gets[0][3][1]) == inner.elem and _has_leaf(gets[0][3][0], ("param", 3))):
+                    okn = False
+        report.ob(rule, "one-line-per-id", cnts == set([1]), "write_fmt calls per member: %s (expected exactly 1)" % sorted(cnts), site=Q.site_of(ev, inner) or b.loc(), config=config)
+        report.ob(rule, "name-lookup", okn and n_ways >= 2, "each id is looked up in the map inverted from the `map` argument" if okn else "the printed name is not looked up by the member's own id in the name map", site=b.loc(), config=config)
+    # the result is Ok only after the whole walk
+    bad = [e for e in ends if e.kind == "return" and e.ret[0] == "agg" and e.ret[2] == "std::result::Result::Ok" and
+           any(x[0] == "loop" and x[2] is not None and x[1].iters[x[2]].end != "done" for x in e.path.events)]
+    report.ob(rule, "ok-after-walk", not bad, "Ok(()) is returned only after every level was exhausted" if not bad else "Ok(()) can be returned from the middle of the walk", site=b.loc(), config=config)
     # Debug::fmt and print_par_seq format the builder itself
     fmt = facts.one(name="fmt", trait="std::fmt::Debug", self_head=A.DB)
     bt2 = prog.bt(fmt)
